@@ -70,8 +70,8 @@ func (d *TCGEventData) Unmarshal(r io.Reader) error {
 	if err := binary.Read(r, binary.LittleEndian, &size); err != nil {
 		return err
 	}
-	chunk := make([]byte, size)
-	if n, err := r.Read(chunk); err != nil || uint32(n) != size {
+	chunk, n, err := readFull(r, size)
+	if err != nil {
 		return fmt.Errorf("failed to read TCGEventData sized %d (read %d bytes): %w", size, n, err)
 	}
 	if size >= EventSignatureSize {
